@@ -38,8 +38,35 @@ MODES = ["ok", "ok", "ok", "unknown", "crash", "exit", "garbage", "fail-on-asser
 CFG = Cfg(max_depth=3, theories={"bool", "bv"}, bv_widths=[1, 2, 3], nsyms=2, share=25)
 
 
+SOLVER_TAG = [None]        # the scratch directory of the case under test: it is on every solver process' command line
+
+
+def solver_processes_alive():
+    """Number of reference-solver processes of the current case (found by their --log path in /proc)."""
+    tag = SOLVER_TAG[0]
+    if not tag:
+        return 1
+    n = 0
+    me = os.getpid()
+    for pid in os.listdir("/proc"):
+        if not pid.isdigit() or int(pid) == me:
+            continue
+        try:
+            with open("/proc/%s/cmdline" % pid, "rb") as fh:
+                cl = fh.read()
+            if tag.encode() in cl:
+                with open("/proc/%s/stat" % pid) as fh:
+                    if fh.read().rsplit(")", 1)[1].split()[0] != "Z":
+                        n += 1
+        except OSError:
+            continue
+    return n
+
+
 def call_with_deadlock_watch(fn, budget=25.0, grace=1.5):
-    """Run fn() in a thread.  -> ('ok', value) | ('raised', exc) | ('deadlock',) | ('inconclusive',)"""
+    """Run fn() in a thread.  -> ('ok', value) | ('raised', exc) | ('deadlock',) | ('inconclusive',)
+    Deadlock = the call has not returned although nothing is left that could ever answer: no member process is
+    alive, or (members may be alive but waiting) no solver process of any member is alive, for a grace period."""
     box = {}
 
     def target():
@@ -56,7 +83,11 @@ def call_with_deadlock_watch(fn, budget=25.0, grace=1.5):
         if not th.is_alive():
             break
         alive = multiprocessing.active_children()
-        if not alive:
+        nsolv = solver_processes_alive() if alive else 0
+        if nsolv:
+            box["seen"] = True
+        # (solver processes that have not been started yet are not 'gone': they must have been seen, or 10 s passed)
+        if not alive or (nsolv == 0 and (box.get("seen") or time.time() - t0 > 10.0)):
             dead_since = dead_since or time.time()
             if time.time() - dead_since > grace:
                 return ("deadlock",)
@@ -73,6 +104,7 @@ def check_case(run, members, fbp, extra_bp, exit_on_exception):
     from pysmt.solvers.portfolio import Portfolio
     env = Environment()
     tmp = tempfile.mkdtemp(prefix="c19_")
+    SOLVER_TAG[0] = tmp
     case = {"members": members, "formula": fbp, "extra": extra_bp, "exit_on_exception": exit_on_exception}
     oks = [m for m in members if m[1] == "ok"]
     modes = {m[1] for m in members}
